@@ -286,6 +286,45 @@ def model_correspondence(res, tier):
     res.extra["model_inputs"] = hist
 
 
+def same_path_reread(res):
+    """two different equilibria written one after the other to the *same* file name with the same header line and read in the same
+    interpreter: the second read must give the second equilibrium (nothing remembered from the first)"""
+    from hypnotoad.geqdsk import _geqdsk
+    from hypnotoad.cases import tokamak
+
+    wd = os.path.join(vlib.WORK, "c14_reread")
+    os.makedirs(wd, exist_ok=True)
+    path = os.path.join(wd, "same_name.geqdsk")
+    got = []
+    for geo in ("lsn", "usn", "lsn"):
+        r1, z1, p2, p1 = example(geo)
+        nx, ny = p2.shape
+        with warnings.catch_warnings(), contextlib.redirect_stdout(io.StringIO()):
+            warnings.simplefilter("ignore")
+            eq0 = tokamak.TokamakEquilibrium(r1, z1, p2.copy(), p1.copy(), [], make_regions=False, settings={})
+        t = np.linspace(0, 1, nx)
+        data = {"nx": nx, "ny": ny, "rdim": r1[-1] - r1[0], "zdim": z1[-1] - z1[0], "rcentr": 1.5, "bcentr": 2.0, "rleft": r1[0], "zmid": 0.5 * (z1[0] + z1[-1]),
+                "rmagx": 1.5, "zmagx": 0.0, "simagx": float(eq0.psi_axis), "sibdry": float(eq0.psi_sep[0]), "cpasma": 1.0e6,
+                "fpol": 2.5 + 0.3 * t, "pres": 1.0e3 * (1 - t) ** 2 + 10.0, "qpsi": 1.0 + 2.0 * t, "psi": p2}
+        with open(path, "w") as fh:
+            _geqdsk.write(data, fh, label="SAMEHEAD", shot=1, time=0)
+        with warnings.catch_warnings(), contextlib.redirect_stdout(io.StringIO()):
+            warnings.simplefilter("ignore")
+            with open(path, "rt") as fh:
+                eq = tokamak.read_geqdsk(fh, settings={}, make_regions=False)
+        if isinstance(eq, tuple):
+            res.extra.setdefault("refused", []).append(["same-path reread " + geo, str(eq[1])[:120]])
+            return
+        got.append((geo, float(eq.x_points[0].Z), float(eq0.x_points[0].Z), eq.geqdsk_input == open(path).read()))
+    res.case(key=("same-path-reread",), nontrivial=True, sample={"op": "read_geqdsk of one file name overwritten with lsn, usn, lsn"})
+    for geo, z_read, z_true, text_ok in got:
+        if abs(z_read - z_true) > 1e-6 or not text_ok:
+            res.violation("reread-stale", "reading %r after the file had been overwritten with the %s equilibrium gives an X-point at Z=%.4f (the file's is at %.4f)%s"
+                          % (os.path.basename(path), geo, z_read, z_true, "" if text_ok else "; the embedded g-file text is not the file's"), {"sequence": [g[0] for g in got]})
+            return
+    res.traces += 1
+
+
 def run(res, tier):
     res.rule = ("caller arrays compared bit-for-bit before/after TokamakEquilibrium construction for 6 option sets x 2 families; one grid "
                 "rebuilt in fresh worker processes after 1-2 other builds (same, non-orthogonal double null, circular) in the same interpreter and "
@@ -297,6 +336,7 @@ def run(res, tier):
     model_correspondence(res, tier)
     determinism(res, tier)
     cli_roundtrip(res, tier)
+    same_path_reread(res)
 
 
 def replay(rep):
